@@ -618,6 +618,11 @@ func (fr *Frame) havocAllHeap() {
 
 // isCloseOnly: the channel value is read from a field declared close-only by a monitor of this package.
 func (fr *Frame) isCloseOnly(v ssa.Value) bool {
+	// ctx.Done(): a context's done channel is only ever closed (package context)
+	if call, ok := v.(*ssa.Call); ok && call.Call.IsInvoke() && call.Call.Method.Name() == "Done" && isContextType(call.Call.Value.Type()) {
+		fr.R.Trusted["a context's Done channel is never sent on: a receive succeeds only after it is closed (package context)"] = true
+		return true
+	}
 	name := valueSourceName(v)
 	if name == "" {
 		return false
